@@ -714,7 +714,10 @@ func c14Benign(r *rng, cmd string, root string) []string {
 type c14FlagPool struct{ name string; vals []string }
 
 var c14Dates = []string{"2020-01-01", "2021-06-01", "0001-01-01", "0000-01-01", "9999-12-31", "2020-02-30", "", "x", "-1", "20200101"}
-var c14Ints = []string{"0", "1", "-1", "-5", "3", "2147483647", "-2147483648", "99999999999999999999", "x", ""}
+// (the 64-bit extremes and a value that is an absurd but representable count: seeded change C14c-last-preallocates
+// sized an allocation with --last and was missed while the largest values were 2^31-1 and an unparsable one)
+var c14Ints = []string{"0", "1", "-1", "-5", "3", "2147483647", "-2147483648", "99999999999999999999", "x", "",
+	"9223372036854775807", "-9223372036854775808", "4294967296", "1000000000000"}
 var c14Rx = []string{"Assets", "^Expenses", "(", "[", ".*", "", "\\", "a{1000}", "(?i)assets", "$^"}
 var c14Coms = []string{"CHF", "USD", "", "X Y", "chf", "ÄÖ", "1", "A:B", strings.Repeat("C", 3000)}
 var c14Maps = []string{"1,Assets", "0,Assets", "-1,Assets", "-1", "1:-1,Assets", "1:-2,", "-2:-2,.", "2:1,^", "99,Assets", "1:99,Assets", "x,Assets", "1:2:3,A", ",", "", "1,(", "2147483648,A"}
@@ -754,6 +757,10 @@ func c14HostileFlags(r *rng, cmd string) []string {
 		a = append(a, p.name)
 		if p.vals != nil {
 			a = append(a, pick(r, p.vals))
+		}
+		if p.name == "--last" && r.chance(60) {
+			// --last only matters together with an interval
+			a = append(a, pick(r, []string{"--days", "--weeks", "--months", "--quarters", "--years"}))
 		}
 	}
 	return a
